@@ -5,6 +5,7 @@ use std::panic;
 
 mod color;
 mod typemap;
+mod uigen;
 
 fn main() {
     let args: Vec<String> = std::env::args().collect();
@@ -12,6 +13,7 @@ fn main() {
     let f: fn(&serde_json::Value) -> serde_json::Value = match cmd {
         "color" => color::run,
         "typemap" => typemap::run,
+        "uigen" => uigen::run,
         _ => {
             eprintln!("usage: vh <color|...> < cases.jsonl");
             std::process::exit(2);
